@@ -31,6 +31,7 @@ ObsInit ==
     inFlight |-> {},         \* retry obligations created before shutdown completed
     msgs     |-> {},         \* messages handed to the queue
     termM    |-> {},         \* messages with a terminal outcome
+    expBroken |-> {},        \* messages whose attempt panicked inside the target (quarantine is the outcome)
     spoolC   |-> << >>,      \* listing at CloseReturn (<< >> = none)
     f14      |-> TRUE,       \* every crash so far is explained by "Add overlapped Close"
     viol     |-> {} ]
@@ -84,10 +85,11 @@ ObsCloseReturn(o) == [o EXCEPT !.closeSt = "returned"]
 \* spool listing: pending = messages with a .meta file, broken = with a .meta_broken file
 ObsSpool(o, when, pending, broken) ==
   LET lost == (o.msgs \ o.termM) \ (pending \cup broken)
-      o1 == V(o, broken = {}, "BrokenMark")
+      \* a broken mark is legitimate only as the containment of a panic of the attempt itself
+      o1 == V(o, broken \subseteq o.expBroken, "BrokenMark")
       \* a broken mark is the known window iff a retry obligation was created by an
       \* attempt that overlapped the shutdown
-      o2 == [o1 EXCEPT !.f14 = @ /\ (broken = {} \/ (o.closeSt # "no" /\ o.inFlight # {}))]
+      o2 == [o1 EXCEPT !.f14 = @ /\ (broken \subseteq o.expBroken \/ (o.closeSt # "no" /\ o.inFlight # {}))]
       o3 == V(o2, lost = {}, "RemovedWithoutOutcome")
   IN IF when = "close" THEN [o3 EXCEPT !.spoolC = <<pending, broken>>]
      \* after shutdown nothing that was on disk may change (later enqueues may add files)
@@ -97,7 +99,15 @@ ObsSpool(o, when, pending, broken) ==
 \* the process is started again on the same spool directory: a new scheduler instance, not
 \* shut down; what was handed out, dispatched and given a terminal outcome stays as it is, so
 \* "exactly once" and "not before its time" are judged across the restart
-ObsRestart(o) == [o EXCEPT !.closeSt = "no", !.spoolC = << >>, !.calling = << >>]
+\* pid = post_init_delay: nothing that is pending is attempted before start-up + pid
+ObsRestart(o, now, pid) ==
+  [o EXCEPT !.closeSt = "no", !.spoolC = << >>, !.calling = << >>,
+            !.due = [e \in DOMAIN o.due |-> IF o.disp[e] = 0 /\ o.due[e] < now + pid THEN now + pid ELSE o.due[e]]]
+
+\* the attempt for message m panicked inside the downstream target: the panic is contained,
+\* the message is quarantined (.meta_broken) - that is its outcome
+ObsAttemptPanic(o, m) ==
+  V([o EXCEPT !.termM = @ \cup {m}, !.expBroken = @ \cup {m}], o.closeSt # "returned", "ActiveAfterShutdown")
 
 \* end of the run: `hung` = names of API calls (producers, "closer") that never returned;
 \* now = final clock value, beyond every due time that was handed out
